@@ -1981,3 +1981,6 @@ mod test {
         assert!(!cache.contains(&1));
     }
 }
+
+#[cfg(feature = "verif-hooks")]
+mod verif;
